@@ -339,6 +339,59 @@ Reload(p) ==
             !.slots = [i \in 1..nslots |-> IF i <= Len(p.slots) THEN p.slots[i] ELSE Unalloc]]
 
 ---------------------------------------------------------------------------
+(* Case analysis coverage.  Every step of a history falls into a CLASS: the  *)
+(* case of the write / resize case analysis it took (1a .. 3c above, refined *)
+(* by whether the number of (mini) sectors shrank, stayed or grew) plus the  *)
+(* table events it caused (a FAT / DIFAT / MiniFAT / directory / container   *)
+(* sector added, free sectors reused or released, MiniFAT trimmed, the file  *)
+(* extended) and whether the stream's chain runs backwards somewhere (free   *)
+(* lists are LIFO, so reused space is chained in reverse).  MC_Phys prints   *)
+(* the classes of every transition of the tiny-geometry graph, Trace_Phys    *)
+(* those of every recorded step of the real library: the evidence reports    *)
+(* which classes of the model's case analysis real executions reached.       *)
+SeqSet(q) == {q[i] : i \in 1..Len(q)}
+Units(n, u) == CeilDiv(n, u)
+Trend(a, b) == IF b < a THEN "-" ELSE IF b = a THEN "=" ELSE "+"
+WriteCaseOf(p, id, off, n) ==
+  LET e == E(p, id)
+      newLen == IF e.size > off + n THEN e.size ELSE off + n
+  IN IF e.start = ENDC THEN (IF newLen < Cutoff THEN "w1a" ELSE "w1b")
+     ELSE IF e.size < Cutoff THEN (IF newLen < Cutoff THEN "w2a" \o Trend(Units(e.size, MiniLen), Units(newLen, MiniLen)) ELSE "w2b")
+     ELSE "w3" \o Trend(Units(e.size, SectorLen), Units(newLen, SectorLen))
+ResizeCaseOf(p, id, newLen) ==
+  LET e == E(p, id) IN
+  IF newLen = e.size THEN "r0"
+  ELSE IF e.start = ENDC THEN (IF newLen < Cutoff THEN "r1a" ELSE "r1b")
+  ELSE IF e.size < Cutoff
+  THEN (IF newLen = 0 THEN "r2a" ELSE IF newLen < Cutoff THEN "r2b" \o Trend(Units(e.size, MiniLen), Units(newLen, MiniLen)) ELSE "r2c")
+  ELSE (IF newLen = 0 THEN "r3a" ELSE IF newLen < Cutoff THEN "r3b" ELSE "r3c" \o Trend(Units(e.size, SectorLen), Units(newLen, SectorLen)))
+Backwards(c) == \E i \in 1..(Len(c) - 1) : c[i + 1] < c[i]
+AnyBackwards(p) ==
+  \E i \in 1..(Len(p.slots) - 1) :
+     LET e == E(p, i) IN
+     e.kind = KStream /\ e.size > 0 /\ Backwards(IF e.size < Cutoff THEN MiniChain(p, e.start) ELSE Chain(p, e.start))
+EventNames == <<"fatsec", "difatsec", "minifatsec", "dirsec", "container", "grow", "reuse", "release", "minireuse", "minirelease",
+                "minitrim", "backwards">>
+EventHolds(p, q, k) ==
+  CASE k = 1 -> Len(q.difat) > Len(p.difat)
+    [] k = 2 -> Len(q.difatSecs) > Len(p.difatSecs)
+    [] k = 3 -> Len(Chain(q, q.minifatStart)) > Len(Chain(p, p.minifatStart))
+    [] k = 4 -> Len(Chain(q, q.dirStart)) > Len(Chain(p, p.dirStart))
+    [] k = 5 -> Len(Chain(q, RootStart(q))) > Len(Chain(p, RootStart(p)))
+    [] k = 6 -> q.nsec > p.nsec
+    [] k = 7 -> SeqSet(p.free) \ SeqSet(q.free) # {}
+    [] k = 8 -> SeqSet(q.free) \ SeqSet(p.free) # {}
+    [] k = 9 -> \E m \in SeqSet(p.freeMini) : m < Len(p.minifat) /\ p.minifat[m + 1] = FREE /\ m < Len(q.minifat) /\ q.minifat[m + 1] # FREE
+    [] k = 10 -> \E m \in 0..(Len(q.minifat) - 1) : q.minifat[m + 1] = FREE /\ p.minifat[m + 1] # FREE
+    [] k = 11 -> Len(q.minifat) < Len(p.minifat)
+    [] k = 12 -> AnyBackwards(p)
+RECURSIVE EventsFrom(_, _, _)
+EventsFrom(p, q, k) == IF k > Len(EventNames) THEN ""
+                       ELSE (IF EventHolds(p, q, k) THEN "," \o EventNames[k] ELSE "") \o EventsFrom(p, q, k + 1)
+(* class of the step p -> q made by operation `what` (a case name or an operation name) *)
+StepClass(what, p, q) == what \o EventsFrom(p, q, 1)
+
+---------------------------------------------------------------------------
 (* Invariants of the physical state (independent of CfbImage's WF, which     *)
 (* MC_Phys also evaluates on the image)                                      *)
 FreeListOK(p) ==
